@@ -86,13 +86,16 @@ func (c *reconnectClient) Connect(ctx context.Context, clientID string, opts ...
 		var initialized bool
 		for {
 			if baseCli, err := c.dialer.DialContext(ctx); err == nil {
+				simYield("reconn.afterDial")
 				c.RetryClient.SetClient(ctx, baseCli)
+				simYield("reconn.afterSetClient")
 
 				ctxConnect, cancelConnect := c.options.timeoutContext(ctx)
 
 				if sessionPresent, err := c.RetryClient.Connect(ctxConnect, clientID, opts...); err == nil {
 					cancelConnect()
 
+					simYield("reconn.afterConnect")
 					reconnWait = c.options.ReconnectWaitBase // Reset reconnect wait.
 					doneOnce.Do(func() {
 						ctx = context.Background()
@@ -115,6 +118,7 @@ func (c *reconnectClient) Connect(ctx context.Context, clientID string, opts ...
 								c.options.PingInterval,
 								c.options.Timeout,
 							); err != nil {
+								simYield("reconn.keepAliveFailed")
 								select {
 								case <-ctxKeepAlive.Done():
 									// Keep alive was stopped; it is not a connection error.
@@ -132,6 +136,7 @@ func (c *reconnectClient) Connect(ctx context.Context, clientID string, opts ...
 					}
 					select {
 					case <-baseCli.Done():
+						simYield("reconn.connLost")
 						cancelKeepAlive()
 						if err := baseCli.Err(); err == nil {
 							// Disconnected as expected; don't restart.
@@ -142,6 +147,7 @@ func (c *reconnectClient) Connect(ctx context.Context, clientID string, opts ...
 						// User cancelled; don't restart.
 						return
 					case <-c.disconnected:
+						simYield("reconn.disconnectSeen")
 						cancelKeepAlive()
 						return
 					}
